@@ -26,8 +26,15 @@ FUNCS = {"\\cosh": sp.cosh, "\\sinh": sp.sinh, "\\cos": sp.cos, "\\sin": sp.sin,
 GREEK = {"\\phi", "\\theta", "\\alpha", "\\gamma", "\\xi"}
 
 
+_IGNORED = ("\\left", "\\right", "\\,", "\\;", "\\!", "\\:", "\\quad", "\\qquad", "\\displaystyle")
+
+
 def tokenize(s: str) -> List[str]:
     out, pos = [], 0
+    for ig in _IGNORED:
+        s = s.replace(ig, " ")
+    s = s.replace("\\tfrac", "\\frac").replace("\\dfrac", "\\frac").replace("\\cdot", "*").replace("\\times", "*")
+    s = s.replace("\\mathrm{e}", "e").replace("\\mathrm{i}", "i")
     s = s.strip()
     while pos < len(s):
         m = TOKEN.match(s, pos)
